@@ -134,6 +134,7 @@ var mandatory = map[string]bool{
 	"keylock.wake":         true,
 	"lock.spin":            true, // a mutex that was not free: parks until released (cmd/autoyield)
 	"tq.wake":              true, // waiters of a full task queue, all woken by one pop
+	"tq.start":             true, // first act of a task queue worker
 	"updateIndex.start":    true,
 	"handleChange.afterDo": true,
 	"store.open":           true,
